@@ -613,6 +613,8 @@ def select__insert_before(self: XPathFunction, context: ta.ContextType = None) \
         context = self.context
 
     position = self.get_argument(context, 1, required=True, cls=int)
+    if isinstance(position, bool):
+        raise self.error('XPTY0004', 'an xs:integer required')
     insert_at_pos = max(0, position - 1)
 
     inserted = False
@@ -653,7 +655,7 @@ def select__remove(self: XPathFunction, context: ta.ContextType = None) -> Itera
         context = self.context
 
     position = self.get_argument(context, 1)
-    if not isinstance(position, int):
+    if not isinstance(position, int) or isinstance(position, bool):
         raise self.error('XPTY0004', 'an xs:integer required')
 
     for pos, result in enumerate(self[0].select(context), start=1):
